@@ -6,7 +6,11 @@ import resource
 import subprocess
 import time
 
-WORK = "/verif/work"
+# overrides are for the framework's own mutation experiments only (tools/seedrun_wt.sh);
+# the registered checks always run against /repo and write to /verif
+REPO = os.environ.get("VT_REPO", "/repo")
+WORK = os.environ.get("VT_WORK", "/verif/work")
+EVIDENCE_DIR = os.environ.get("VT_EVIDENCE_DIR", "/verif/evidence")
 TARGET = os.path.join(WORK, "target")
 NATIVE_TARGET = os.path.join(WORK, "target-native")
 MEM_LIMIT = 28 * 1024 ** 3
